@@ -392,7 +392,15 @@ func runInner(c Case) (res vt.Result, fail *vt.Fail) {
 			go func(j int, op PhaseOp) {
 				defer wg.Done()
 				if op.Op == "push" {
-					errs[j] = repo.Push(ctx, refs[op.Ref].desc, bytes.NewReader(refs[op.Ref].bytes))
+					pd := refs[op.Ref].desc
+					if (pi+j)%3 == 1 {
+						// the caller's descriptor carries metadata of its own (as one taken
+						// from an OCI layout's index.json does); what gets listed is the
+						// manifest's artifact type and annotations all the same
+						pd.ArtifactType = "application/vnd.caller.says"
+						pd.Annotations = map[string]string{"org.opencontainers.image.ref.name": "t", "verif.caller": "1"}
+					}
+					errs[j] = repo.Push(ctx, pd, bytes.NewReader(refs[op.Ref].bytes))
 				} else {
 					errs[j] = repo.Delete(ctx, refs[op.Ref].desc)
 				}
